@@ -31,10 +31,17 @@ SEEDS = [
     # an item the grammar calls `tok` (the generated code keeps the first token in a local of that name)
     "start: q NEWLINE\nq: n=NUMBER tok=NAME { foo(tok, mk(LOCATIONS)) } | tok=NAME { foo(tok, mk(LOCATIONS)) }\n",
     "start: '-' n=NUMBER tok=NAME NEWLINE { foo(n, tok, mk(LOCATIONS)) }\n",
+    # the alternative itself consumes the end marker: it is layout, the span ends at the last real token
+    "start: s=NAME NEWLINE $ { mk(LOCATIONS) }\n",
+    # a TYPE_COMMENT token as the last matched token, and in the middle
+    "start: n=NAME '=' v=NUMBER tc=TYPE_COMMENT { mk(LOCATIONS) } | n=NAME '=' v=NUMBER { mk(LOCATIONS) }\n",
+    "start: NAME [TYPE_COMMENT] '=' NUMBER NEWLINE { mk(LOCATIONS) }\n",
+    "start: stmt+ ENDMARKER { mk(LOCATIONS) }\nstmt: NAME NEWLINE { mk(LOCATIONS) } | NUMBER NEWLINE { mk(LOCATIONS) }\n",
 ]
 LAYOUT = {T.NEWLINE, T.INDENT, T.DEDENT, T.ENDMARKER}
 EXTRA = ["x 1 y\n", "x : y\n", "x : y ! ;\n", "x ;\n", "x 1 2 3\n", "x 1 2\n", "x = 1 y = 2 z = 3\n", "x :\n y\n", "x x\n", "x = 1 x\n", "1 + 2 + 3\n", "x\n", "x 1\n", "f ( )\n", "f ( a )\n",
-         "f ( a ) = 1\n", "f\n", "f = 1\n", "10 px\n", "px\n", "- 2 em\n"]
+         "f ( a ) = 1\n", "f\n", "f = 1\n", "10 px\n", "px\n", "- 2 em\n", "ab\ncd\n", "ab\n1\ncd\n",
+         "longer_name = 22      # type: List[int]\n", "x = 1\n", "x = 1 # not a type comment\n"]
 
 
 def expected_span(tokens, s, e):
@@ -55,6 +62,8 @@ def run(chk: common.Check, tier: str):
     kn = gramgen.Knobs(terminals=("NAME", "NUMBER", "'+'", "'='", "NEWLINE"), left_rec=False,
                        action_pool=("mk(LOCATIONS)", "foo(mk(LOCATIONS), x)", "[mk(LOCATIONS)]"))
     texts = SEEDS + list(gramgen.gen_grammars(r, kn, 30 if tier == "quick" else 400))
+    import dataclasses
+    texts += list(gramgen.gen_grammars(r, dataclasses.replace(kn, terminals=("NAME", "SOFT_KEYWORD", "STRING", "OP", "NUMBER", '"soft"', "'kw'", "'+'", "NEWLINE")), 12 if tier == "quick" else 150))
     nin = 25 if tier == "quick" else 150
     pairs = rm.krun(chk, "C15", texts, lambda t: A.inputs_upto(A.alphabet(t), 3, nin) + (EXTRA if t in SEEDS else []),
                     configs=("q1", "q0", "v1", "v0"))
